@@ -14,7 +14,7 @@ def model_cfg(tier, family, tg, with_invariants):
     if with_invariants:
         inv = "TypeOK P_C12 P_C16 I_Ahead Dump"
     # C16 is about sizes and fragmentation: no write faults, no cuts; C12 is about faults
-    maxwf, maxrf, marks, small = (1, 1, 3, 9) if family == "C12" else (0, 0, 2, 4)
+    maxwf, maxrf, marks, small = (2, 1, 2, 9) if family == "C12" else (0, 0, 2, 4)
     if tier == "thorough":
         maxwf, maxrf, marks, small = (2, 2, 3, 9) if family == "C12" else (0, 1, 3, 6)
     return ("SPECIFICATION Spec\nCONSTANTS\n  U = 32\n  Cfgs <- MCCfgs\n  Tier = \"%s\"\n  Family = \"%s\"\n"
@@ -46,6 +46,25 @@ def run_family(family):
             res["model"] = {}
         if not cases:
             raise vlib.Inconclusive("no cases generated")
+        if only_cases is None and family == "C16":
+            # free runs over real sockets through the constructors applications use (listener
+            # Accept, DialTcp): one per distinct configuration plus long streams of small envelopes
+            seen, extra = set(), []
+            cfgs = [c["cfg"] for c in cases]
+            for L in sorted({c["L"] for c in cfgs}):
+                cfgs.append({"lens": [1] * 12, "U": 32, "L": L, "faultfree": "y"})
+                cfgs.append({"lens": [2, 1, 2, 1, 2, 1, 2, 7, 1], "U": 32, "L": L, "faultfree": "y"})
+            for cf in cfgs:
+                key = (tuple(cf["lens"]), cf["L"])
+                if key in seen:
+                    continue
+                seen.add(key)
+                for mode in ("loop-accept", "loop-dial"):
+                    extra.append({"mode": mode, "cfg": dict(cf, faultfree="y"), "plan": {"w": [], "r": [], "cut": 0}, "obs": []})
+            for c in extra:
+                c["n"] = len(cases) + 1
+                cases.append(c)
+            res["model"]["free_run_cases"] = len(extra)
         cp = os.path.join(scratch, "tcp_cases_%s_%d.ndjson" % (family, len(cases)))
         with open(cp, "w") as f:
             for c in cases:
